@@ -298,6 +298,8 @@ def check_computed(model, rep, rm):
                             classes |= set(x.key[1])
                         if x.kind == 'truth' and x.pol and str(x.key[0]).endswith('_is_computable'):
                             flags.add(str(x.key[0]).split('.')[-1])
+                    if meth == 'compute_electric_current' and owner != 'E[0]':
+                        continue       # the current belongs to the motor E[0]; a call on another element does not count
                     comp.setdefault(meth, set()).add((frozenset(classes), frozenset(flags)))
     concrete = [c for c in model.subclasses('RotatingObject') if not model.is_abstract_class(c)]
     for cls in sorted(concrete):
